@@ -313,7 +313,7 @@ def groups(tier):
         if kind == "additive":
             for n in ((2,) if tier == "quick" else (2, 3)):
                 gs.append(_mk("reference[n=%d,additive]" % n, additive_reference_body(n), dict(n=n, interaction="additive", oracle="documented algorithm")))
-        smax_n = {"quick": dict(additive=2, random=3, nested=3), "thorough": dict(additive=2, random=4, nested=4)}[tier][kind]  # special[n=3,additive] exhausts 60 GB of solver memory: outside the bound
+        smax_n = {"quick": dict(additive=2, random=3, nested=3), "thorough": dict(additive=2, random=4, nested=3)}[tier][kind]  # special[n=3,additive] exhausts 60 GB of solver memory and special[n=4,nested] did not finish in 2.5 h: outside the bound
         for n in range(1, smax_n + 1):
             gs.append(_mk("special[n=%d,%s]" % (n, kind), special_body(n, kind), dict(n=n, interaction=kind)))
     return gs
